@@ -312,6 +312,10 @@ PredictionMatchesMachine == (SingleEntry /\ Terminal) =>
                             vtouched = IF Readable1 THEN PredictTouched(vall[1], vopt, Guard) ELSE {}
 \* an unreadable entry never touches anything, whatever its name (the Err arm does not build a path)
 UnreadTouchesNothing == (SingleEntry /\ ~Readable1) => vtouched = {}
+\* Extraction is HISTORY-FREE: what a completed run touched is the union of what each of its entries touches on its own --
+\* no entry's target depends on which entries came before it or in which order (a "previous directory" shortcut breaks this)
+OrderIndependent == (vst = "done") =>
+    vtouched = UNION {IF i \in vopt.unread THEN {} ELSE PredictTouched(vall[i], vopt, Guard) : i \in 1..Len(vall)}
 \* a single entry stops the run exactly when AbortsAlone says so (what the case generator relies on when
 \* it packs the other names into groups)
 AbortCharacterised == (SingleEntry /\ Terminal) =>
